@@ -10,7 +10,7 @@
        returns. *)
 From Coq Require Import ZArith List Bool String Lia.
 Import ListNotations.
-From Verif Require Import Lib.Corr Gen.C33.
+From Verif Require Import Lib.Corr Gen.C33 Model.C31.
 Open Scope Z_scope.
 
 (* ---- (1) reads of a sync ---------------------------------------------------- *)
@@ -40,6 +40,156 @@ Definition iteration {op} (reads : list read) (work : list op) : list op :=
   if sync_error reads then [] else work.
 
 Definition is_transient (r : read) : bool := match snd r with Transient => true | _ => false end.
+
+(* ---- (1b) the sync as a function of the bucket contents and the set of failing
+   reads: BaseFetcher.fetchMetadata / loadMeta classification, the filters that
+   read markers, Syncer.SyncMetas, and the iteration on top --------------------- *)
+
+(* what is stored under <block>/meta.json *)
+Inductive mstate := MOk | MMissing | MCorrupt | MBadVersion.
+(* what is stored under <block>/deletion-mark.json: none, a well-formed mark (older
+   than the fetcher's ignore delay? older than the cleaner's delete delay?), garbage,
+   or an unexpected version *)
+Inductive dstate := DNone | DOk (hide clean : bool) | DCorrupt | DBadVersion.
+(* <block>/no-compact-mark.json *)
+Inductive nstate := NNone | NOk | NCorrupt | NBadVersion.
+
+Record bstate := mk_bstate { sblk : blk; smeta : mstate; sdel : dstate; snoc : nstate }.
+Definition sid (x : bstate) : Z := bid (sblk x).
+
+(* a read of the sync, identified by what it reads *)
+Inductive rid := RList | RExists (i : Z) | RMeta (i : Z) | RDel (i : Z) | RNoc (i : Z).
+Definition faults := rid -> bool.
+
+Definition has_meta (x : bstate) : bool := match smeta x with MMissing => false | _ => true end.
+
+(* loadMeta succeeded *)
+Definition loaded (f : faults) (x : bstate) : bool :=
+  match smeta x with MOk => negb (f (RMeta (sid x))) | _ => false end.
+
+(* fetchMetadata: `default:` arm of the switch — metaErrs (incomplete view) *)
+Definition meta_err (f : faults) (x : bstate) : bool :=
+  match smeta x with
+  | MOk | MCorrupt => f (RMeta (sid x))
+  | MBadVersion => true
+  | MMissing => false
+  end.
+
+(* partial blocks: no meta.json, or not JSON *)
+Definition is_partial (f : faults) (x : bstate) : bool :=
+  match smeta x with
+  | MMissing => true
+  | MCorrupt => negb (f (RMeta (sid x)))
+  | _ => false
+  end.
+
+(* IgnoreDeletionMarkFilter on one loaded block: error? *)
+Definition del_err (f : faults) (x : bstate) : bool :=
+  f (RDel (sid x)) || match sdel x with DBadVersion => true | _ => false end.
+Definition del_hidden (x : bstate) : bool := match sdel x with DOk true _ => true | _ => false end.
+Definition del_marked (x : bstate) : bool := match sdel x with DOk _ _ => true | _ => false end.
+Definition del_cleanable (x : bstate) : bool := match sdel x with DOk _ true => true | _ => false end.
+
+Definition noc_err (f : faults) (x : bstate) : bool :=
+  f (RNoc (sid x)) || match snoc x with NBadVersion => true | _ => false end.
+
+Definition in_ids (l : list Z) (x : bstate) : bool := mem (sid x) l.
+
+(* blocks that reach the duplicate filter / the no-compact filter *)
+Definition after_del (f : faults) (b : list bstate) : list bstate :=
+  filter (fun x => loaded f x && negb (del_hidden x)) b.
+Definition after_dedup (f : faults) (b : list bstate) : list bstate :=
+  let a := after_del f b in filter (in_ids (map bid (kept (map sblk a)))) a.
+
+Record sview := mk_sview {
+  v_metas : list Z;       (* Syncer.Metas() *)
+  v_partial : list Z;     (* Syncer.Partial() *)
+  v_marks : list bstate;  (* IgnoreDeletionMarkFilter.DeletionMarkBlocks() *)
+  v_dups : list Z;        (* DuplicateIDs() *)
+  v_nocompact : list Z }.
+
+(* Syncer.SyncMetas; None = it returns an error and the previous view is kept *)
+Definition sync (concurrent : bool) (f : faults) (b : list bstate) : option sview :=
+  if f RList then None
+  else if concurrent && existsb (fun x => f (RExists (sid x))) b then None
+  else
+    let ld := filter (loaded f) b in
+    if existsb (del_err f) ld then None
+    else
+      let ad := after_del f b in
+      let dd := after_dedup f b in
+      if existsb (noc_err f) dd then None
+      else if existsb (meta_err f) b then None   (* "incomplete view" *)
+      else Some (mk_sview (map sid dd)
+                          (map sid (filter (is_partial f) b))
+                          (filter del_marked ld)
+                          (map sid (filter (fun x => negb (in_ids (map sid dd) x)) ad))
+                          (map sid (filter (fun x => match snoc x with NOk => true | _ => false end) dd))).
+
+(* reads the sync can perform under fault set f (an over-approximation when an
+   earlier stage already failed: later stages still run on what was loaded) *)
+Definition performed (concurrent : bool) (f : faults) (b : list bstate) (r : rid) : bool :=
+  match r with
+  | RList => true
+  | RExists i => concurrent && existsb (fun x => sid x =? i) b
+  | RMeta i => existsb (fun x => (sid x =? i) && has_meta x) b
+  | RDel i => existsb (fun x => (sid x =? i) && loaded f x) b
+  | RNoc i => existsb (fun x => sid x =? i) (after_dedup f b)
+  end.
+
+(* the reads of a fault-free sync, in one sequential order *)
+Definition read_order (concurrent : bool) (b : list bstate) : list rid :=
+  let f := fun _ => false in
+  RList :: (if concurrent then map (fun x => RExists (sid x)) b else [])
+  ++ map (fun x => RMeta (sid x)) (filter has_meta b)
+  ++ map (fun x => RDel (sid x)) (filter (loaded f) b)
+  ++ map (fun x => RNoc (sid x)) (after_dedup f b).
+
+Definition rid_eqb (a b : rid) : bool :=
+  match a, b with
+  | RList, RList => true
+  | RExists i, RExists j | RMeta i, RMeta j | RDel i, RDel j | RNoc i, RNoc j => i =? j
+  | _, _ => false
+  end.
+
+(* exactly read r fails *)
+Definition only (r : rid) : faults := rid_eqb r.
+
+(* the trace view of the same sync: reads with outcomes (links to part (1)) *)
+Definition meta_outcome (f : faults) (x : bstate) : outcome :=
+  if f (RMeta (sid x)) then Transient
+  else match smeta x with MOk => Found | MCorrupt => Corrupt | MBadVersion => BadVersion | MMissing => NotFound end.
+Definition del_outcome (f : faults) (x : bstate) : outcome :=
+  if f (RDel (sid x)) then Transient
+  else match sdel x with DNone => NotFound | DOk _ _ => Found | DCorrupt => Corrupt | DBadVersion => BadVersion end.
+Definition noc_outcome (f : faults) (x : bstate) : outcome :=
+  if f (RNoc (sid x)) then Transient
+  else match snoc x with NNone => NotFound | NOk => Found | NCorrupt => Corrupt | NBadVersion => BadVersion end.
+
+Definition trace (concurrent : bool) (f : faults) (b : list bstate) : list read :=
+  (KList, if f RList then Transient else Found)
+  :: (if concurrent then map (fun x => (KList, if f (RExists (sid x)) then Transient else if has_meta x then Found else NotFound)) b else [])
+  ++ map (fun x => (KMeta, meta_outcome f x)) (filter has_meta b)
+  ++ map (fun x => (KDelMark, del_outcome f x)) (filter (loaded f) b)
+  ++ map (fun x => (KNoCompact, noc_outcome f x)) (after_dedup f b).
+
+(* one compactor iteration: cleaner (if configured), garbage collection, then
+   whatever group compaction does on the view ([compact_work], abstract) *)
+Inductive cop := CDelete (i : Z) | CMarkDeletion (i : Z) | COther (n : nat).
+
+Definition cleaner_ops (cleaner : bool) (v : sview) : list cop :=
+  if cleaner then map (fun x => CDelete (sid x)) (filter del_cleanable (v_marks v)) else [].
+
+Definition gc_ops (cleaner : bool) (v : sview) : list cop :=
+  let marked := map sid (v_marks v) in
+  map CMarkDeletion (filter (fun i => negb (mem i marked)) (v_dups v)).
+
+Definition iteration2 (concurrent cleaner : bool) (f : faults) (b : list bstate)
+    (compact_work : sview -> list cop) : list cop :=
+  match sync concurrent f b with
+  | None => []
+  | Some v => cleaner_ops cleaner v ++ gc_ops cleaner v ++ compact_work v
+  end.
 
 (* ---- (2) statement-order facts ------------------------------------------------ *)
 Open Scope string_scope.
